@@ -2080,3 +2080,37 @@ func elemFieldSet(r *Run, fn *ssa.Function, isElem func(ssa.Value) bool, field s
 	}
 	return all, n, bad
 }
+
+// reachFromEntryAvoiding returns the first instruction accepted by target that can execute, starting
+// at the function entry, without an instruction accepted by avoid executing before it (nil if none).
+func reachFromEntryAvoiding(fn *ssa.Function, target, avoid func(ssa.Instruction) bool) ssa.Instruction {
+	if len(fn.Blocks) == 0 {
+		return nil
+	}
+	seen := map[*ssa.BasicBlock]bool{fn.Blocks[0]: true}
+	work := []*ssa.BasicBlock{fn.Blocks[0]}
+	for len(work) > 0 {
+		b := work[len(work)-1]
+		work = work[:len(work)-1]
+		stopped := false
+		for _, in := range b.Instrs {
+			if avoid != nil && avoid(in) {
+				stopped = true
+				break
+			}
+			if target(in) {
+				return in
+			}
+		}
+		if stopped {
+			continue
+		}
+		for _, s := range b.Succs {
+			if !seen[s] {
+				seen[s] = true
+				work = append(work, s)
+			}
+		}
+	}
+	return nil
+}
